@@ -1,7 +1,7 @@
 """Typed, constructive generators of valid WebAssembly modules (E1 generators, DESIGN section 4)."""
 from . import wasm
 from .wasm import (I32, I64, F32, F64, NUMERIC, SAT, LOADS, STORES, Module, Func, natural_align)
-from .pools import draw_value, is_snan, quiet
+from .pools import draw_value, draw_const, is_snan, quiet
 
 EXCLUDED = {'snan_immediate': 0, 'clang_fold_demote_subnormal': 0}     # shapes excluded by construction because of a listed known finding
 
@@ -61,6 +61,7 @@ class Features(object):
         self.atomics = atomics
         self.bulk = bulk
         self.avoid_traps = avoid_traps
+        self.dying_tails = control       # bodies that end in return / br / unreachable with operands left over
         # known finding C02-snan-immediate-gcc-forwarding: signalling-NaN immediates in bodies are replaced by quiet ones
         self.no_snan_consts = no_snan_consts
 
@@ -104,7 +105,7 @@ class FuncGen(object):
 
     # ---- expressions
     def const(self, t):
-        v = draw_value(self.ch, t)
+        v = draw_const(self.ch, t)
         if self.f.no_snan_consts and is_snan(t, v):
             EXCLUDED['snan_immediate'] += 1
             v = quiet(t, v)
@@ -523,8 +524,33 @@ class FuncGen(object):
         return a() + self.expr(I32, depth - 1) + a() + [('memory.fill',)]
 
     # ---- whole body
+    def function_tail(self):
+        """the function body itself ends in an unconditional branch: return / br to the function label / unreachable, with 0-2
+        operands left on the stack below the carried value (valid: the rest is stack-polymorphic), then possibly dead code.
+        The translator's bookkeeping at the end of such a body is not the ordinary fall-through one."""
+        ch = self.ch
+        self.note('function_level_dying_tail')
+        tail = []
+        for _ in range(ch.below(3)):
+            tail += self.expr(ch.pick(self.f.types), 2)
+        k = ch.below(3)
+        if k == 0:
+            tail.append(('unreachable',))
+        else:
+            if self.result is not None:
+                tail += self.expr(self.result, 2)
+            tail.append(('return',) if k == 1 else ('br', len(self.labels)))
+        if self.f.dead_code and ch.below(2):
+            saved = self.budget
+            self.budget = min(self.budget, 8)
+            tail += self.stmts(1, 1)
+            self.budget = saved
+        return tail
+
     def body(self):
         out = self.stmts(self.f.max_depth, self.ch.below(4))
+        if getattr(self.f, 'dying_tails', False) and self.ch.below(5) == 0:
+            return out + self.function_tail()
         if self.result is None:
             out += self.stmts(self.f.max_depth, 1 + self.ch.below(3))
             if not out:
@@ -590,7 +616,7 @@ def general_module(ch, feat, nfuncs=8, host_funcs=0, with_trace=False, nglobals=
     nimp = m.n_imported_funcs()
     for g in range(nglobals):
         t = ch.pick(feat.types)
-        gv = draw_value(ch, t)
+        gv = draw_const(ch, t)
         if feat.no_snan_consts and is_snan(t, gv):
             EXCLUDED['snan_immediate'] += 1
             gv = quiet(t, gv)
